@@ -225,12 +225,13 @@ extern "C" void c33_pair_norequest(void) { run(0, 6, PAIR); }
 extern "C" void c33_pair_uri(void) { run(7, 10, PAIR); }
 extern "C" void c33_pair_other(void) { run(11, 15, PAIR); }
 #ifdef VF_THOROUGH
-extern "C" void c33_any_norequest(void) { run(0, 6, ANY); }
-extern "C" void c33_any_uri(void) { run(7, 10, ANY); }
-extern "C" void c33_any_other(void) { run(11, 15, ANY); }
+// thorough: every place, with the first %code listed for it
+extern "C" void c33_any_norequest(void) { run(0, 6, ANY, true); }
+extern "C" void c33_any_uri(void) { run(7, 10, ANY, true); }
+extern "C" void c33_any_other(void) { run(11, 15, ANY, true); }
 #else
-// quick: one representative %code for five of the places
-extern "C" void c33_any_url(void) { run(0, 1, ANY, true); }         // %U without request, %f
+// quick: one representative %code for four of the places
+extern "C" void c33_any_url(void) { run(0, 0, ANY, true); }         // %U without request
 extern "C" void c33_any_host(void) { run(7, 7, ANY, true); }        // %H
 extern "C" void c33_any_header_user(void) { run(13, 13, ANY, true); }    // %R with a header value
 extern "C" void c33_any_user(void) { run(15, 15, ANY, true); }      // %a
